@@ -287,14 +287,21 @@ static cJSON_bool decode_array_index_from_pointer(const unsigned char * const po
         return 0;
     }
 
-    for (position = 0; (pointer[position] >= '0') && (pointer[0] <= '9'); position++)
+    for (position = 0; (pointer[position] >= '0') && (pointer[position] <= '9'); position++)
     {
-        parsed_index = (10 * parsed_index) + (size_t)(pointer[position] - '0');
+        const size_t digit = (size_t)(pointer[position] - '0');
+        if (parsed_index > ((((size_t)-1) - digit) / 10))
+        {
+            /* index doesn't fit in size_t, so it cannot exist */
+            return 0;
+        }
+        parsed_index = (10 * parsed_index) + digit;
 
     }
 
-    if ((pointer[position] != '\0') && (pointer[position] != '/'))
+    if ((position == 0) || ((pointer[position] != '\0') && (pointer[position] != '/')))
     {
+        /* not a (complete) decimal number */
         return 0;
     }
 
